@@ -89,13 +89,13 @@ Definition cs_of (s : state) := can_sync (cfg s) (dp s) (dd s).
 Definition hm_of (s : state) := has_majority (cfg s) (dp s) (dd s).
 
 Definition tick1 (s : state) (f : fault) : state * nat :=
-  if negb (cs_of s) && hm_of s && negb (in_state s Async) && cf_async_ok (cfg s)
+  if negb (cs_of s) && hm_of s && negb (in_state s Async) && async_ok s
   then (fst (switch s Async f 0), 1%nat) else (s, 0%nat).
 Definition tick2 (s : state) (s1 : state) (n1 : nat) (f : fault) : state * nat :=
   if cs_of s && in_state s1 Async then (fst (switch s1 SyncRecover f n1), S n1) else (s1, n1).
 Definition progress_figures (s3 : state) : state :=
   State (cfg s3) (served s3) (stored s3) (files s3) (next_id s3) (cur_key s3) (cur_cnt s3)
-        (dr_total s3) (cur_cnt s3) (dr_total s3) (regions s3) (stores s3) (bsz s3) (chain s3) (used s3).
+        (dr_total s3) (cur_cnt s3) (dr_total s3) (regions s3) (stores s3) (bsz s3) (clk s3) (chain s3) (used s3).
 Definition tick3 (s2 : state) (n2 : nat) (f : fault) : state :=
   if in_state s2 SyncRecover then
     let s3 := update_progress s2 in
@@ -148,12 +148,12 @@ Proof. destruct a, b; cbn; split; intros; try discriminate; reflexivity. Qed.
 (* ---------- statement 1: to async only when a dc lost all its replicas, a majority can be up, the timeout passed ---------- *)
 Theorem async_only_when_pf s f :
   in_state s Async = false -> in_state (tick s f) Async = true ->
-  cs_of s = false /\ hm_of s = true /\ cf_async_ok (cfg s) = true.
+  cs_of s = false /\ hm_of s = true /\ async_ok s = true.
 Proof.
   intros H0 H1. rewrite tick_decomp in H1.
   destruct (negb (cf_dr (cfg s))); [congruence|].
   unfold tick1 in H1.
-  destruct (negb (cs_of s) && hm_of s && negb (in_state s Async) && cf_async_ok (cfg s))%bool eqn:C1.
+  destruct (negb (cs_of s) && hm_of s && negb (in_state s Async) && async_ok s)%bool eqn:C1.
   - apply andb_true_iff in C1 as [C1 Ca]. apply andb_true_iff in C1 as [C1 _]. apply andb_true_iff in C1 as [Cc Ch].
     apply negb_true_iff in Cc. auto.
   - (* no switch to async in this tick: the state cannot end up async *)
@@ -181,7 +181,7 @@ Proof.
   destruct (tick1 s f) as [s1 n1] eqn:E1. destruct (tick2 s s1 n1 f) as [s2 n2] eqn:E2.
   (* step 1 never produces sync_recover *)
   assert (A1 : in_state s1 SyncRecover = false /\ (cs_of s = true -> s1 = s)).
-  { unfold tick1 in E1. destruct (negb (cs_of s) && hm_of s && negb (in_state s Async) && cf_async_ok (cfg s))%bool eqn:C1.
+  { unfold tick1 in E1. destruct (negb (cs_of s) && hm_of s && negb (in_state s Async) && async_ok s)%bool eqn:C1.
     - apply andb_true_iff in C1 as [C1 _]. apply andb_true_iff in C1 as [C1 _]. apply andb_true_iff in C1 as [Cc _].
       apply negb_true_iff in Cc. inv E1. split; [|congruence].
       destruct (switch s Async f 0) as [s4 ok] eqn:E4. cbn [fst]. destruct ok.
@@ -303,7 +303,7 @@ Proof.
   assert (A1 : scan_inv s1 /\ regions s1 = regions s /\ chain s1 = chain s /\
                (in_state s Sync = false -> in_state s1 Sync = false) /\
                (in_state s SyncRecover = true -> in_state s1 SyncRecover = true -> served s1 = served s)).
-  { unfold tick1 in E1. destruct (negb (cs_of s) && hm_of s && negb (in_state s Async) && cf_async_ok (cfg s))%bool; [|inv E1; auto 6].
+  { unfold tick1 in E1. destruct (negb (cs_of s) && hm_of s && negb (in_state s Async) && async_ok s)%bool; [|inv E1; auto 6].
     inv E1. destruct (switch s Async f 0) as [s4 ok] eqn:E4. cbn [fst].
     destruct (switch_spec _ _ _ _ _ _ E4) as (_&Rg&_&_&_&_&T&F).
     split; [eapply switch_scan_inv; eauto|]. split; [exact Rg|]. destruct ok.
@@ -321,7 +321,7 @@ Proof.
       rewrite !(in_state_switch_ok _ _ _ _ _ _ E4). cbn. split; [reflexivity|].
       intros Hs _. exfalso. (* s was sync_recover, s1 async: then step 1 switched, but it needs "not can-sync" while step 2 needs it *)
       destruct (in_state s1 SyncRecover) eqn:X; [pose proof (in_state_excl _ _ _ X Ca); discriminate|].
-      unfold tick1 in E1. destruct (negb (cs_of s) && hm_of s && negb (in_state s Async) && cf_async_ok (cfg s))%bool eqn:C1.
+      unfold tick1 in E1. destruct (negb (cs_of s) && hm_of s && negb (in_state s Async) && async_ok s)%bool eqn:C1.
       * apply andb_true_iff in C1 as [C1 _]. apply andb_true_iff in C1 as [C1 _]. apply andb_true_iff in C1 as [Cc _].
         apply negb_true_iff in Cc. congruence.
       * inv E1. congruence.
@@ -401,7 +401,7 @@ Qed.
 
 Lemma scan_inv_step s o s' r : run_cmd s o = (s', r) -> scan_inv s -> scan_inv s'.
 Proof.
-  destruct o as [f|c f|l|rid sid integ|id down]; cbn [run_cmd]; intros H I.
+  destruct o as [f|c f|l|rid sid integ|id down|dt|mid]; cbn [run_cmd]; intros H I.
   - inv H. apply scan_inv_tick; exact I.
   - unfold update_config in H.
     destruct (negb (cf_dr (cfg s)) && cf_dr c)%bool.
@@ -413,6 +413,8 @@ Proof.
         assert (I1 : scan_inv s1) by (eapply switch_scan_inv; [exact E|eapply scan_inv_frame; [| | | |exact I]; reflexivity]).
         destruct ok; inv H; [exact I1|eapply scan_inv_frame; [| | | |exact I1]; reflexivity].
       * inv H. eapply scan_inv_frame; [| | | |exact I]; reflexivity.
+  - inv H. eapply scan_inv_frame; [| | | |exact I]; reflexivity.
+  - inv H. eapply scan_inv_frame; [| | | |exact I]; reflexivity.
   - inv H. eapply scan_inv_frame; [| | | |exact I]; reflexivity.
   - inv H. eapply scan_inv_frame; [| | | |exact I]; reflexivity.
   - inv H. eapply scan_inv_frame; [| | | |exact I]; reflexivity.
@@ -483,7 +485,7 @@ Lemma id_inv_tick st0 s f : id_inv st0 s -> id_inv st0 (tick s f).
 Proof.
   intros I. rewrite tick_decomp. destruct (negb (cf_dr (cfg s))); [exact I|].
   assert (I1 : forall s1 n1, tick1 s f = (s1, n1) -> id_inv st0 s1).
-  { intros s1 n1 E1. unfold tick1 in E1. destruct (negb (cs_of s) && hm_of s && negb (in_state s Async) && cf_async_ok (cfg s))%bool; [|inv E1; exact I].
+  { intros s1 n1 E1. unfold tick1 in E1. destruct (negb (cs_of s) && hm_of s && negb (in_state s Async) && async_ok s)%bool; [|inv E1; exact I].
     inv E1. destruct (switch s Async f 0) as [s4 ok] eqn:E4. cbn [fst]. eapply id_inv_switch; eauto. }
   destruct (tick1 s f) as [s1 n1] eqn:E1. specialize (I1 _ _ eq_refl).
   assert (I2 : forall s2 n2, tick2 s s1 n1 f = (s2, n2) -> id_inv st0 s2).
@@ -500,7 +502,7 @@ Qed.
 
 Lemma id_inv_step st0 s o s' r : run_cmd s o = (s', r) -> id_inv st0 s -> id_inv st0 s'.
 Proof.
-  destruct o as [f|c f|l|rid sid integ|id down]; cbn [run_cmd]; intros H I.
+  destruct o as [f|c f|l|rid sid integ|id down|dt|mid]; cbn [run_cmd]; intros H I.
   - inv H. apply id_inv_tick; exact I.
   - unfold update_config in H.
     assert (I0 : id_inv st0 (set_cfg s c)) by (eapply id_inv_frame; [| | | | |exact I]; reflexivity).
@@ -516,6 +518,8 @@ Proof.
   - inv H. eapply id_inv_frame; [| | | | |exact I]; reflexivity.
   - inv H. eapply id_inv_frame; [| | | | |exact I]; reflexivity.
   - inv H. eapply id_inv_frame; [| | | | |exact I]; reflexivity.
+  - inv H. eapply id_inv_frame; [| | | | |exact I]; reflexivity.
+  - inv H. eapply id_inv_frame; [| | | | |exact I]; reflexivity.
 Qed.
 
 (* the allocator never hands out an id that is in use: at start-up the stored status carries an id below the next one *)
@@ -524,7 +528,7 @@ Definition boot_ok (st : option status) (id0 : Z) : Prop := forall y, st = Some 
 Lemma id_inv_boot c st id0 rs ss b : boot_ok st id0 -> id_inv st (boot c st id0 rs ss b).
 Proof.
   intros Hb. unfold boot.
-  assert (I0 : id_inv st (State c None st [] id0 "" 0 0 0 0 rs ss b [] (match st with Some x => [st_id x] | None => [] end))).
+  assert (I0 : id_inv st (State c None st [] id0 "" 0 0 0 0 rs ss b (Clock 0 0 []) [] (match st with Some x => [st_id x] | None => [] end))).
   { constructor; cbn.
     - intros i Hi. destruct st as [x|]; cbn in Hi; [destruct Hi as [<-|[]]; apply Hb; reflexivity|contradiction].
     - destruct st; repeat constructor; auto.
@@ -598,7 +602,7 @@ Qed.
 Lemma chain_origin_pf s o s' r0 r :
   run_cmd s o = (s', r0) -> scan_inv s -> In r (chain s') -> In r (chain s) \/ (In r (regions s) /\ exists f, o = OTick f).
 Proof.
-  destruct o as [f|c f|l|rid sid integ|id down]; cbn [run_cmd]; intros H I Hin.
+  destruct o as [f|c f|l|rid sid integ|id down|dt|mid]; cbn [run_cmd]; intros H I Hin.
   - inv H. rewrite tick_decomp in Hin. destruct (negb (cf_dr (cfg s))); [left; exact Hin|].
     destruct (tick1 s f) as [s1 n1] eqn:E1. destruct (tick2 s s1 n1 f) as [s2 n2] eqn:E2.
     destruct (tick12_spec _ _ _ _ _ _ E1 E2 I) as (I2&Rg&Ch&_&_).
@@ -632,4 +636,146 @@ Proof.
   - inv H. left; exact Hin.
   - inv H. left; exact Hin.
   - inv H. left; exact Hin.
+  - inv H. left; exact Hin.
+  - inv H. left; exact Hin.
 Qed.
+
+(* ====================================================================================================
+   What IS guaranteed about the DR_STATE files (the file goes out before the storage save, its delivery error is dropped)
+   ==================================================================================================== *)
+(* every file names an id the allocator has already handed out (and not one from before this leader), and no two files name the same id *)
+Record file_inv (lo : Z) (s : state) : Prop := {
+  fi_lt : forall x, In x (files s) -> lo <= st_id x < next_id s;
+  fi_nodup : NoDup (map st_id (files s));
+  fi_lo : lo <= next_id s
+}.
+Lemma switch_files s t f i s' ok :
+  switch s t f i = (s', ok) ->
+  (files s' = files s /\ next_id s' = next_id s) \/ (files s' = Status t (next_id s) :: files s /\ next_id s' = next_id s + 1).
+Proof.
+  unfold switch. destruct (alloc_fails f i); [intros H; inv H; left; split; reflexivity|].
+  destruct (wr f i) as [a [|]]; [destruct t|]; intros H; inv H; right; split; reflexivity.
+Qed.
+Lemma file_inv_switch lo s t f i s' ok : switch s t f i = (s', ok) -> file_inv lo s -> file_inv lo s'.
+Proof.
+  intros H [L N Lo]. destruct (switch_files _ _ _ _ _ _ H) as [[A B]|[A B]]; constructor; rewrite ?A, ?B; try assumption.
+  - intros x [<-|Hx]; cbn; [lia|]. specialize (L x Hx). lia.
+  - cbn. constructor; [|exact N]. intros Hin. apply in_map_iff in Hin as [y [Ey Hy]]. specialize (L y Hy). lia.
+  - lia.
+Qed.
+Lemma file_inv_frame lo s s' : files s' = files s -> next_id s' = next_id s -> file_inv lo s -> file_inv lo s'.
+Proof. intros A B [L N Lo]. constructor; rewrite ?A, ?B; assumption. Qed.
+Lemma file_inv_tick lo s f : file_inv lo s -> file_inv lo (tick s f).
+Proof.
+  intros I. rewrite tick_decomp. destruct (negb (cf_dr (cfg s))); [exact I|].
+  assert (I1 : forall s1 n1, tick1 s f = (s1, n1) -> file_inv lo s1).
+  { intros s1 n1 E1. unfold tick1 in E1. destruct (negb (cs_of s) && hm_of s && negb (in_state s Async) && async_ok s)%bool; [|inv E1; exact I].
+    inv E1. destruct (switch s Async f 0) as [s4 ok] eqn:E4. cbn [fst]. eapply file_inv_switch; eauto. }
+  destruct (tick1 s f) as [s1 n1] eqn:E1. specialize (I1 _ _ eq_refl).
+  assert (I2 : forall s2 n2, tick2 s s1 n1 f = (s2, n2) -> file_inv lo s2).
+  { intros s2 n2 E2. unfold tick2 in E2. destruct (cs_of s && in_state s1 Async)%bool; [|inv E2; exact I1].
+    inv E2. destruct (switch s1 SyncRecover f n1) as [s4 ok] eqn:E4. cbn [fst]. eapply file_inv_switch; eauto. }
+  destruct (tick2 s s1 n1 f) as [s2 n2] eqn:E2. specialize (I2 _ _ eq_refl).
+  unfold tick3. destruct (in_state s2 SyncRecover); [|exact I2].
+  pose proof (progress_loop_frame (S (length (regions s2))) s2) as (_&_&_&D&E&_). fold (update_progress s2) in *.
+  assert (I3 : file_inv lo (update_progress s2)) by (eapply file_inv_frame; [exact D|exact E|exact I2]).
+  destruct (finished (update_progress s2)).
+  - destruct (switch (update_progress s2) Sync f n2) as [s5 ok5] eqn:E5. cbn [fst]. eapply file_inv_switch; eauto.
+  - eapply file_inv_frame; [| |exact I3]; reflexivity.
+Qed.
+Lemma file_inv_step lo s o s' r : run_cmd s o = (s', r) -> file_inv lo s -> file_inv lo s'.
+Proof.
+  destruct o as [f|c f|l|rid sid integ|id down|dt|mid]; cbn [run_cmd]; intros H I.
+  - inv H. apply file_inv_tick; exact I.
+  - unfold update_config in H.
+    assert (I0 : file_inv lo (set_cfg s c)) by (eapply file_inv_frame; [| |exact I]; reflexivity).
+    destruct (negb (cf_dr (cfg s)) && cf_dr c)%bool.
+    + destruct (switch (set_cfg s c) SyncRecover f 0) as [s1 ok] eqn:E.
+      assert (I1 : file_inv lo s1) by (eapply file_inv_switch; eauto).
+      destruct ok; inv H; [exact I1|eapply file_inv_frame; [| |exact I1]; reflexivity].
+    + destruct (cf_dr (cfg s) && cf_dr c && negb (String.eqb (cf_label (cfg s)) (cf_label c)))%bool.
+      * destruct (switch (set_cfg s c) Async f 0) as [s1 ok] eqn:E.
+        assert (I1 : file_inv lo s1) by (eapply file_inv_switch; eauto).
+        destruct ok; inv H; [exact I1|eapply file_inv_frame; [| |exact I1]; reflexivity].
+      * inv H. exact I0.
+  - inv H. eapply file_inv_frame; [| |exact I]; reflexivity.
+  - inv H. eapply file_inv_frame; [| |exact I]; reflexivity.
+  - inv H. eapply file_inv_frame; [| |exact I]; reflexivity.
+  - inv H. eapply file_inv_frame; [| |exact I]; reflexivity.
+  - inv H. eapply file_inv_frame; [| |exact I]; reflexivity.
+Qed.
+Lemma file_inv_boot c st id0 rs ss b : file_inv id0 (boot c st id0 rs ss b).
+Proof.
+  unfold boot.
+  assert (I0 : file_inv id0 (State c None st [] id0 "" 0 0 0 0 rs ss b (Clock 0 0 []) [] (match st with Some x => [st_id x] | None => [] end)))
+    by (constructor; cbn; [contradiction|constructor|lia]).
+  destruct (cf_dr c); [|exact I0]. destruct st as [x|].
+  - constructor; cbn; [contradiction|constructor|lia].
+  - match goal with |- file_inv _ (fst ?X) => destruct X as [s1 ok] eqn:E end. cbn [fst]. eapply file_inv_switch; eauto.
+Qed.
+Lemma file_inv_run lo s ops : file_inv lo s -> file_inv lo (run_state run_op s ops).
+Proof.
+  revert s; induction ops as [|o r IH]; intros s I; cbn [run_state]; [exact I|].
+  rewrite run_op_state. apply IH. destruct (run_cmd s o) as [s1 r1] eqn:E. cbn [fst]. eapply file_inv_step; eauto.
+Qed.
+
+(* 1. a DR_STATE file never names a state id the allocator has not handed out, nor one from before this leader started *)
+Theorem file_ids_allocated_pf b ops x :
+  In x (files (reach b ops)) -> b_id0 b <= st_id x < next_id (reach b ops).
+Proof.
+  intros Hx. pose proof (file_inv_run _ _ ops (file_inv_boot (b_cfg b) (b_st b) (b_id0 b) (b_regions b) (b_stores b) (b_batch b))) as [L _ _].
+  apply L. exact Hx.
+Qed.
+Lemma nodup_ids_eq (l : list status) x y : NoDup (map st_id l) -> In x l -> In y l -> st_id y = st_id x -> y = x.
+Proof.
+  induction l as [|a r IH]; intros N Hin Hy He; [contradiction|].
+  cbn in N. inversion N as [|? ? Hn Nr]; subst.
+  destruct Hin as [->|Hin], Hy as [->|Hy]; auto.
+  - exfalso. apply Hn. apply in_map_iff. exists y. split; [exact He|exact Hy].
+  - exfalso. apply Hn. apply in_map_iff. exists x. split; [symmetry; exact He|exact Hin].
+Qed.
+(* 2. no two files name the same id with different contents; in particular a member never holds a file for an id under which the
+      leader serves a different state: the file that names the served id IS the served status *)
+Theorem file_for_served_id_is_served_pf b ops x y :
+  boot_ok (b_st b) (b_id0 b) ->
+  served (reach b ops) = Some x -> In y (files (reach b ops)) -> st_id y = st_id x -> y = x.
+Proof.
+  intros Hb Hx Hy He.
+  pose proof (file_inv_run _ _ ops (file_inv_boot (b_cfg b) (b_st b) (b_id0 b) (b_regions b) (b_stores b) (b_batch b))) as [L N _].
+  pose proof (id_inv_run _ _ ops (id_inv_boot (b_cfg b) _ _ (b_regions b) (b_stores b) (b_batch b) Hb)) as [_ _ _ _ _ O].
+  unfold reach, boot_of in *.
+  destruct (O x Hx) as [Hin|Hb0].
+  - eapply nodup_ids_eq; eauto.
+  - (* x is the status this leader loaded at start-up: its id is below every file id *)
+    specialize (Hb x Hb0). specialize (L y Hy). lia.
+Qed.
+Theorem files_have_distinct_ids_pf b ops x y :
+  In x (files (reach b ops)) -> In y (files (reach b ops)) -> st_id y = st_id x -> y = x.
+Proof.
+  intros Hx Hy He.
+  pose proof (file_inv_run _ _ ops (file_inv_boot (b_cfg b) (b_st b) (b_id0 b) (b_regions b) (b_stores b) (b_batch b))) as [_ N _].
+  unfold reach, boot_of in *. eapply nodup_ids_eq; eauto.
+Qed.
+(* drCheckAsyncTimeout spelled out over the clock inputs *)
+Theorem async_ok_spec_pf s :
+  async_ok s = true <->
+  cf_timeout (cfg s) = 0 \/
+  ((forall id t, In (id, t) (c_members (clk s)) -> c_now (clk s) - t > cf_timeout (cfg s)) /\ c_now (clk s) - c_init (clk s) > cf_timeout (cfg s)).
+Proof.
+  unfold async_ok, async_ok_at. rewrite orb_true_iff, andb_true_iff, Z.eqb_eq, forallb_forall. split.
+  - intros [H|[A B]]; [left; exact H|right]. split; [|lia]. intros id t Hin. specialize (A _ Hin). cbn in A. lia.
+  - intros [H|[A B]]; [left; exact H|right]. split; [|lia]. intros [id t] Hin. specialize (A _ _ Hin). cbn. lia.
+Qed.
+
+(* the start-up rule (NewReplicationModeManager / loadDRAutoSync), as what it guarantees: a stored status is served as it is (no id is
+   spent, no file goes out); without a stored status the manager starts in `sync` through the ordinary switch: the id is the
+   allocator's next one, the status is in storage and was offered as a file before it is served *)
+Theorem startup_rule_pf c st id0 rs ss b :
+  cf_dr c = true ->
+  match st with
+  | Some x => served (boot c st id0 rs ss b) = Some x /\ stored (boot c st id0 rs ss b) = Some x /\
+              files (boot c st id0 rs ss b) = [] /\ next_id (boot c st id0 rs ss b) = id0
+  | None => served (boot c st id0 rs ss b) = Some (Status Sync id0) /\ stored (boot c st id0 rs ss b) = Some (Status Sync id0) /\
+            files (boot c st id0 rs ss b) = [Status Sync id0] /\ next_id (boot c st id0 rs ss b) = id0 + 1
+  end.
+Proof. intros Hc. unfold boot. rewrite Hc. destruct st as [x|]; cbn; repeat split; reflexivity. Qed.
